@@ -54,6 +54,11 @@ type interpreter struct {
 
 	pendingAbort *pathAbort
 	panicOrigin  *panicInfo
+	envSizes     map[*ssa.Function]int
+	funcs        map[*ssa.Function]bool
+	nativeCalls  map[string]int64
+	initPkgs     []*ssa.Package
+	assertsSymbolic int64
 }
 
 type deferred struct {
@@ -501,7 +506,7 @@ func callSSA(i *interpreter, caller *frame, callpos token.Pos, fn *ssa.Function,
 			panic(engineError{"call into unmodelled library function " + fn.String() + " (" + reason + ")"})
 		}
 	}
-	i.ex.noteFunc(fn)
+	i.noteFunc(fn)
 	if i.trace {
 		fmt.Fprintf(os.Stderr, "%*sEntering %s\n", depth(caller), "", fn)
 	}
@@ -511,7 +516,7 @@ func callSSA(i *interpreter, caller *frame, callpos token.Pos, fn *ssa.Function,
 		panic(engineError{"uninstantiated generic function " + fn.String()})
 	}
 
-	fr.env = make(map[ssa.Value]value)
+	fr.env = make(map[ssa.Value]value, i.envSize(fn))
 	fr.block = fn.Blocks[0]
 	fr.locals = make([]value, len(fn.Locals))
 	for i, l := range fn.Locals {
@@ -549,6 +554,23 @@ func (fr *frame) stack() string {
 		n++
 	}
 	return sb.String()
+}
+
+// envSize returns the number of SSA values of fn (to pre-size the environment).
+func (i *interpreter) envSize(fn *ssa.Function) int {
+	if n, ok := i.envSizes[fn]; ok {
+		return n
+	}
+	n := len(fn.Params) + len(fn.FreeVars) + len(fn.Locals)
+	for _, b := range fn.Blocks {
+		for _, in := range b.Instrs {
+			if _, ok := in.(ssa.Value); ok {
+				n++
+			}
+		}
+	}
+	i.envSizes[fn] = n
+	return n
 }
 
 func depth(fr *frame) int {
